@@ -587,6 +587,16 @@ def open_views(ctx, case, F, containers, dyn_sec_index):
             x = Exc(e)
             F.add('exc|open|%s|%s|container=%s' % (x.t, x.site, cname), 'sec.' + cname, repr(x))
             continue
+        if cname == 'moved':
+            # the 'moved' views are read through a deep copy of the file object (ELFStructs implements the pickle protocol: a copy is
+            # rebuilt from the saved state, and must decode exactly like an object made by the constructor)
+            try:
+                import copy
+                ef = copy.deepcopy(ef)
+            except Exception as e:  # noqa
+                x = Exc(e)
+                F.add('exc|deepcopy|%s|%s' % (x.t, x.site), 'sec.' + cname, repr(x))
+                continue
         if cname != 'stripped' and dyn_sec_index is not None:
             try:
                 sec = ef.get_section(dyn_sec_index)
@@ -888,8 +898,10 @@ def build_case(ch, tier, force=None):
         osabi = ch.choice([0, 0, 3, 9])
     elif flavor == 'mips':
         machine = 10 if (cls == 32 and ch.bool(0.15)) else 8
+        osabi = ch.choice([0, 0, 0, 6, 3])      # the processor-specific range is named by the machine whatever the OS ABI says
     elif flavor == 'aarch64':
         machine = 183
+        osabi = ch.choice([0, 0, 0, 6, 3])
     else:
         machine = ch.choice([3, 62, 2, 43])
         osabi = 6
